@@ -12,6 +12,12 @@ CHECKS = {
    note="SHA-256 / rs_merkle collision freedom; nothing claimed beyond the length bound.",
    technique="bounded exhaustive enumeration of all input pairs against a reference (prefix) model, executed on the real CommitTree/CommitProof code",
    design_ref="DESIGN.md §5 C08"),
+ "C11": dict(engine="authx", level="model_checking",
+   text="Explicit exploration of server state x access configuration x route x credential form with raw HTTP requests against a real in-process server: states {D1 trusted; D1+D2 trusted; D2 revoked; D2 re-trusted and revoked within one device-log patch} are reached LIVE on the serving process through real client syncs (so the server's in-memory trusted-device set is the one its handlers produced), 15 route/method pairs (account, status, events scan/diff/patch, files compare, file put/get/delete/move), 12 credential forms (none, non-base58, wrong length, legacy dotted, unknown key, D2, D1 over other bytes, another account's device, missing / malformed account header, D1 addressed to account B, valid), access configs none / allow A / allow B / deny A / deny B. Oracle: a request that must be refused is never answered 2xx and leaves every file of the server directory and both accounts' sync status unchanged.",
+   note="Requests are sent one at a time; the combined allow+deny configuration is outside the property's quantifier; the websocket upgrade route is not driven; Ed25519 is trusted.",
+   technique="explicit-state exploration of (server state x config x route x credential) on the real server; state-unchanged invariant after every refused request",
+   design_ref="DESIGN.md §5 C11"),
+
  "C14": dict(engine="codecx", level="exploration",
    text="Structure enumerator over 23 binary types (incl. all 15 secret kinds x 11 user-data shapes, SecretMeta with every field varied independently and in combination, all event variants, proofs from real trees, boundary timestamps), 30 protobuf wire types and the database row conversions: decode(encode(x)) is compared with x under the harness's own deep projection (the repository's partial PartialEq impls are not trusted), encoding twice is byte-identical and, for types hashed into commits, encode(decode(encode(x))) == encode(x). Cartesian within the stated per-type bounds.",
    note="Plaintext types containing HashSet/HashMap are compared as sets only; the shared-access list of a vault header is not compared for database folder rows (no column; unused feature); nothing is claimed for values outside the enumerated shapes.",
